@@ -1258,6 +1258,9 @@ def builtin(I, o, args, kwargs, callnode):
             return VDict(kwargs)
         if isinstance(args[0], VDict):
             return VDict(args[0].items)
+        if isinstance(args[0], VMap) and not kwargs:
+            # dict(mapping): a new dict with the same items (like mapping.copy())
+            return snapshot(args[0])
         raise Unsupported('dict()')
     if o is set or o is frozenset:
         if not args:
